@@ -14,12 +14,12 @@ from vf.props import c08  # noqa: F401  (sets HOME to a scratch directory)
 
 LEVEL = "translation_validation"
 META = {
-    "bounds": "generated SBML L3V2 documents: <=3 species in one compartment of size 1, <=3 parameters, a function definition called with permuted arguments, "
+    "bounds": "generated SBML L3V2 documents: <=3 species in one compartment (size 1, another constant size, or prescribed by an initial assignment), <=3 parameters, a function definition called with permuted arguments, "
     "chained assignment rules, initial assignments on species and parameters, kinetic laws with piecewise / power / exp / ln, constant, fractional and "
     "rule-defined stoichiometries, 1-2 reactions; identifiers from a pool of legal SBML ids that are awkward in Python, one per role; a second document "
     "(same file name in another directory, and a different name) read in the same session",
     "stubs": ["documents are written with libsbml from abstract descriptions; pysbml/libsbml run concretely; `math` of the generated module bound to the UF proxy"],
-    "outside": "compartment sizes other than 1 or varying, events, delays, algebraic and rate rules, units, hasOnlySubstanceUnits variants, boundary species",
+    "outside": "initial values of species whose compartment is re-sized by an initial assignment, several compartments, compartments that vary in time, events, delays, algebraic and rate rules, units, hasOnlySubstanceUnits variants, boundary species",
     "assumptions_list": ["the oracle is the harness's own reading of the abstract document: d[S]/dt = sum of stoichiometry * kinetic law, V = 1", "real arithmetic"],
 }
 
@@ -89,7 +89,12 @@ def make_doc(name, ids=None, features=()):
     r = dict(S1="S1", S2="S2", S3="S3", k1="k1", k2="k2", k3="k3", f="f", R1="R1", R2="R2", sr="sr")
     r.update(ids or {})
     S1, S2, S3, k1, k2, k3, f, R1, R2, sr = (r[x] for x in ("S1", "S2", "S3", "k1", "k2", "k3", "f", "R1", "R2", "sr"))
-    d = dict(name=name, species=[(S1, 2.0), (S2, 0.5)], params=[(k1, 3.0, True)], functions=[], rules=[], init=[], reactions=[], srefs={})
+    d = dict(name=name, species=[(S1, 2.0), (S2, 0.5)], params=[(k1, 3.0, True)], functions=[], rules=[], init=[], reactions=[], srefs={},
+             comp_size=1.0, comp_init=None)
+    if "compartment_size" in features:
+        d["comp_size"] = 2.0
+    if "compartment_assignment" in features:
+        d["comp_init"] = ("*", I(k1), N(0.5))  # declared 1, prescribed k1/2 by an initial assignment
     law = ("*", I(k1), I(S1))
     st_r, st_p = [(S1, 1.0)], [(S2, 1.0)]
     if "function" in features:
@@ -120,6 +125,11 @@ def make_doc(name, ids=None, features=()):
         law = ("*", law, ("exp", ("-", N(0.0), I(S2))))
     if "ln" in features:
         law = ("*", law, ("ln", I(S1)))
+    if "guarded_log" in features:
+        # the logarithm is only evaluated inside its guard; outside, the law is the plain constant branch
+        law = ("piecewise", ("+", ("*", I(k1), ("ln", I(S1))), ("*", I(S2), ("ln", I(S1)))), ("gt", I(S1), N(1.0)), I(k1))
+    if "guarded_division" in features:
+        law = ("piecewise", ("+", ("/", I(k1), I(S2)), ("/", I(k1), I(S2))), ("gt", I(S2), N(0.5)), N(2.0))
     if "fractional" in features:
         st_r, st_p = [(S1, 1.5)], [(S2, 0.25)]
     if "rule_stoichiometry" in features:
@@ -142,7 +152,7 @@ def write_doc(d, path):
     c = m.createCompartment()
     c.setId("comp")
     c.setConstant(True)
-    c.setSize(1.0)
+    c.setSize(d.get("comp_size", 1.0))
     c.setSpatialDimensions(3)
     for sid, v in d["species"]:
         s = m.createSpecies()
@@ -166,6 +176,10 @@ def write_doc(d, path):
         ar = m.createAssignmentRule()
         ar.setVariable(var)
         ar.setMath(libsbml.parseL3Formula(formula(e)))
+    if d.get("comp_init") is not None:
+        ia = m.createInitialAssignment()
+        ia.setSymbol("comp")
+        ia.setMath(libsbml.parseL3Formula(formula(d["comp_init"])))
     for sym, e in d["init"]:
         ia = m.createInitialAssignment()
         ia.setSymbol(sym)
@@ -307,6 +321,8 @@ class Import(Scenario):
             if pid not in decl_state:
                 env0[pid] = evaluate(e, env0, funcs)
         for sid, v in d["species"]:
+            if d.get("comp_init") is not None:
+                break  # how a re-sized compartment rescales declared concentrations is not part of the harness's reading (outside)
             exp0 = evaluate(inits[sid], env0, funcs) if sid in inits else v
             with ctx.impl("initial conditions"):
                 got = m.get_initial_conditions()[vmap[sid]]
@@ -320,15 +336,22 @@ class Import(Scenario):
                 env[pid] = env0[pid]
         exp = {sid: 0.0 for sid in species}
         for rid, reac, prod, law in d["reactions"]:
-            v = evaluate(law, env, funcs)
+            try:
+                v = evaluate(law, env, funcs)
+            except (ValueError, ZeroDivisionError):
+                return  # the document's own kinetic law is undefined at this state
             for lst, sign in ((reac, -1), (prod, 1)):
                 for sid, st in lst:
                     coef = evaluate(I(st[1]), env, funcs) if isinstance(st, tuple) else st
                     exp[sid] = exp[sid] + sign * coef * v
+        # species are concentrations in one compartment: kinetic laws are amounts per time, so d[S]/dt = (1/V) sum(nu * law)
+        vol = d.get("comp_size", 1.0)
+        if d.get("comp_init") is not None:
+            vol = evaluate(d["comp_init"], env0, funcs)
         with ctx.impl("imported model evaluates"):
             out = m(T, [state[s] for s in species])
         for sid, o in zip(species, out):
-            ctx.eq(f"d[{sid}]/dt = stoichiometry x kinetic laws of the document", o, exp[sid])
+            ctx.eq(f"d[{sid}]/dt = stoichiometry x kinetic laws of the document", o, exp[sid] / vol)
 
 
 FEATURE_SETS = [
@@ -336,6 +359,8 @@ FEATURE_SETS = [
     ("exp",), ("ln",), ("fractional",), ("rule_stoichiometry",), ("two_reactions",),
     ("function", "rule", "fractional"), ("rule_chain", "piecewise", "two_reactions"), ("init_species", "rule_stoichiometry", "function_permuted"),
     ("init_param", "pow", "two_reactions", "fractional"),
+    ("guarded_log",), ("guarded_division",), ("compartment_size",), ("compartment_assignment",), ("compartment_size", "fractional", "two_reactions"),
+    ("compartment_assignment", "rule", "fractional"),
 ]
 ROLES = {"species": "S1", "parameter": "k1", "function": "f", "reaction": "R1"}
 
